@@ -191,10 +191,14 @@ func VerifListJobs(s *Scheduler) []VerifJobView {
 	return res
 }
 
-// VerifEffectiveRetryDelay returns the delay (ns) the reRun handler of a scheduled job would wait.
+// VerifEffectiveRetryDelay returns the delay (ns) the reRun handler of a job would wait if its stored
+// definition were scheduled now, the way loading at start-up, resume and restart do (load, verify, build).
 func VerifEffectiveRetryDelays(s *Scheduler, jobID string) []int64 {
 	cfg, err := s.LoadJob(jobID)
 	if err != nil || cfg == nil {
+		return nil
+	}
+	if err := s.verify(cfg); err != nil {
 		return nil
 	}
 	jobs, err := s.toTriggeredJobs(cfg)
